@@ -84,6 +84,18 @@ def cases(tier, seed):
     for reg in [[0.0, 4.0, 0.0, 2.0], [-2.0, 2.0, -1.0, 1.0], [-8.0, 8.0, -4.0, 4.0], [1.0, 3.0, -5.0, -1.0], [0.0, 0.0, 1.0, 2.0]]:
         for proj in ("affine", "flip", "rot", "exp", "square", "negsq", "cube_shift"):
             yield dict(kind="project_region", region=reg, proj=proj)
+    # very elongated regions (1e4 ... 1e6 to 1), both ways, and regions far from the origin (seed C13-10: a sampling grid sized by the
+    # aspect ratio)
+    for reg in [[0.0, 1.0e5, 0.0, 1.0], [0.0, 1.0, 0.0, 2.0e5], [-8.0, 8.0, -4.0e6, 4.0e6], [5.0e5, 5.0e5 + 4.0, 7.5e6, 7.5e6 + 2.0e4], [-2.0e6, 2.0e6, 1.0, 3.0]]:
+        for proj in ("affine", "flip", "rot", "identity"):
+            yield dict(kind="project_region", region=reg, proj=proj)
+    # get_region of 2-D arrays that are ALMOST meshgrids (a survey grid rotated by a fraction of a degree, a sheared grid), near the
+    # origin and at projected-coordinate magnitudes (seed C13-9: bounds taken from the first row / column only)
+    for shape in ([3, 4], [6, 11], [2, 2]):
+        for off in ([0.0, 0.0], [5.0e5, 7.5e6], [-3.2e6, 1.0e3]):
+            for angle in (0.0, 0.2, 2.0, -0.05):
+                for shear in (0.0, 1e-3):
+                    yield dict(kind="get_region_grid", shape=shape, off=off, angle=angle, shear=shear)
     singles = [list(v) for v in _vecs(MV, 3)]
     for v in singles:
         for nan in (True, False):
@@ -109,6 +121,8 @@ def cases(tier, seed):
 def _proj(name):
     if name == "affine":
         return lambda e, n: (2 * e + 1, 4 * n - 3)
+    if name == "identity":
+        return lambda e, n: (e + 0.0, n + 0.0)
     if name == "flip":
         return lambda e, n: (-e, 0.5 * n)
     if name == "rot":
@@ -306,6 +320,24 @@ def run(case, rec):
         rec.check(not raised(ins) and np.asarray(ins).shape == np.asarray(got[0]).shape and bool(np.all(ins)),
                   "grid node outside the requested region %r: %r" % (reg, kw))
         rec.cls("grid_inside/" + ("shape" if "shape" in case else "spacing"))
+        return
+    if kind == "get_region_grid":
+        nn_, ne_ = case["shape"]
+        x, y = np.meshgrid(np.arange(ne_, dtype=float) * 50.0, np.arange(nn_, dtype=float) * 30.0)
+        t = math.radians(case["angle"])
+        ee = case["off"][0] + x * math.cos(t) - y * math.sin(t) + case["shear"] * y
+        nn = case["off"][1] + x * math.sin(t) + y * math.cos(t)
+        for form, (a, b) in {"C": (ee, nn), "F": (np.asfortranarray(ee), np.asfortranarray(nn)), "extra": (ee, nn)}.items():
+            got = call(rec, vd.get_region, (a, b) if form != "extra" else (a, b, np.zeros_like(a)))
+            if raised(got):
+                rec.check(False, "get_region raised %r" % (got,))
+                continue
+            want = (float(ee.min()), float(ee.max()), float(nn.min()), float(nn.max()))
+            rec.check(tuple(float(v) for v in got) == want, "get_region of a %d x %d grid rotated by %r degrees at %r is %r, the bounding box is %r"
+                      % (nn_, ne_, case["angle"], case["off"], tuple(float(v) for v in got), want))
+            ins = call(rec, vd.inside, (a, b), got)
+            rec.check(not raised(ins) and bool(np.all(ins)), "points of the array lie outside their own get_region")
+        rec.cls("get_region/grid%s" % ("/exact-meshgrid" if case["angle"] == 0 and case["shear"] == 0 else ""))
         return
     if kind == "project_region":
         reg = case["region"]
